@@ -35,6 +35,7 @@ type c18Rule struct {
 	Name    string `json:"name"`
 	Foo     string `json:"foo"`
 	Summary string `json:"summary"`
+	Link    string `json:"link"`
 }
 
 type c18Case struct {
@@ -252,7 +253,8 @@ func c18ConfigOpt(opt, typ, v, promURI string) (string, error) {
 	case "rule.link.timeout":
 		return c18RuleBlock(c18Block(`link ".*"`, "timeout = "+q)), nil
 	case "rule.link.uri":
-		return c18RuleBlock(c18Block(`link ".*"`, "uri = "+q)), nil
+		// the pattern captures what follows the host (and an optional "?"): the rewrite may splice it into the URI
+		return c18RuleBlock(c18Block("link "+hclQuote(`http://127\.0\.0\.1:1/\??(.*)`), "uri = "+q)), nil
 	case "rule.cost.maxEvaluationDuration":
 		return c18RuleBlock(c18Block("cost", "maxEvaluationDuration = "+q)), nil
 	case "rule.cost.maxSeries":
@@ -304,16 +306,29 @@ func yq(s string) string { b, _ := json.Marshal(s); return string(b) }
 func c18RuleFile(r c18Rule) string {
 	var b strings.Builder
 	b.WriteString("groups:\n- name: g\n  rules:\n")
-	if r.Kind == "alerting" {
-		fmt.Fprintf(&b, "  - alert: %s\n    expr: up == 0\n", yq(r.Name))
-		if r.Shape == "full" {
-			fmt.Fprintf(&b, "    for: 5m\n    labels:\n      foo: %s\n    annotations:\n      summary: %s\n      link: \"http://127.0.0.1:1/doc\"\n", yq(r.Foo), yq(r.Summary))
+	one := func(name string) {
+		full := r.Shape == "full" || r.Shape == "pair"
+		if r.Kind == "alerting" {
+			fmt.Fprintf(&b, "  - alert: %s\n    expr: up == 0\n", yq(name))
+			if full {
+				fmt.Fprintf(&b, "    for: 5m\n    keep_firing_for: 5m\n    labels:\n      foo: %s\n    annotations:\n      summary: %s\n      link: %s\n",
+					yq(r.Foo), yq(r.Summary), yq(r.Link))
+			}
+		} else {
+			fmt.Fprintf(&b, "  - record: %s\n    expr: sum(up)\n", yq(name))
+			if full {
+				fmt.Fprintf(&b, "    labels:\n      foo: %s\n", yq(r.Foo))
+			}
 		}
-	} else {
-		fmt.Fprintf(&b, "  - record: %s\n    expr: sum(up)\n", yq(r.Name))
-		if r.Shape == "full" {
-			fmt.Fprintf(&b, "    labels:\n      foo: %s\n", yq(r.Foo))
-		}
+	}
+	switch r.Shape {
+	case "broken": // not a valid recording rule name: the rule fails to parse
+		b.WriteString("  - record: foo{job=\"api\"}\n    expr: sum(up)\n")
+	case "pair":
+		one(r.Name)
+		one(r.Name + "b")
+	default:
+		one(r.Name)
 	}
 	return b.String()
 }
@@ -351,7 +366,7 @@ func c18Run(pint, dir string, deadline time.Duration, args ...string) (exit int,
 
 // c18AnchorProbe asks the real regexp package whether some short string over regexp metacharacters is valid
 // alone but invalid between ^ and $ (config validates with regexp.Compile(v), uses MustCompile("^"+v+"$")).
-func c18AnchorProbe() (tried, witnesses int, example string) {
+func c18AnchorProbe() (tried, witnesses, grouped int, example, groupedExample string) {
 	toks := []string{"a", "(", ")", "[", "]", "*", "+", "?", "|", "\\", "^", "$", "{", "}", "1", ",", ".", "(?", "i", ":", "\\Q", "\\E", "-", "P<", ">", "\\b", "\\z", "\\A"}
 	var rec func(s string, d int)
 	rec = func(s string, d int) {
@@ -363,6 +378,12 @@ func c18AnchorProbe() (tried, witnesses int, example string) {
 					witnesses++
 					if example == "" {
 						example = s
+					}
+				}
+				if _, e3 := regexp.Compile("^(?:" + s + ")$"); e3 != nil {
+					grouped++
+					if groupedExample == "" {
+						groupedExample = s
 					}
 				}
 			}
@@ -390,8 +411,9 @@ func init() {
 				return fmt.Errorf("case %d: %v", i+1, err)
 			}
 		}
-		tried, wit, ex := c18AnchorProbe()
-		out.Write(map[string]any{"ev": "AnchorProbe", "tried": tried, "witnesses": wit, "example": ex})
+		tried, wit, grp, ex, gex := c18AnchorProbe()
+		out.Write(map[string]any{"ev": "AnchorProbe", "tried": tried, "witnesses": wit, "example": ex,
+			"groupedWitnesses": grp, "groupedExample": gex})
 		// one configuration per (option, value); all its rule files are linted in the same directory
 		groups := map[string][]int{}
 		var keys []string
